@@ -27,6 +27,12 @@ var c01Descs = []vAPIDesc{
 		{method: "GET", path: "/v/{a}.{b}", id: "composite"}, {method: "POST", path: "/v/{a}", id: "single"}}},
 	{basePath: "", ops: []vOp{
 		{method: "GET", path: "/a/{p}/c", id: "apc"}, {method: "POST", path: "/a/b/c", id: "abc"}, {method: "DELETE", path: "/a/{p}", id: "ap"}}},
+	// a base path that is not in canonical form
+	{basePath: "/api//v1", ops: []vOp{
+		{method: "GET", path: "/pets/{id}", id: "getPetV1"}, {method: "PUT", path: "/pets/{id}", id: "putPetV1"}}},
+	// placeholder names that are prefixes of one another
+	{basePath: "/", ops: []vOp{
+		{method: "GET", path: "/orgs/{orgId}/members/{org}", id: "member"}, {method: "GET", path: "/pets/{pet}/owners/{petId}", id: "owner"}}},
 }
 
 // request-target prefixes per description (the symbolic tail is appended)
@@ -35,6 +41,8 @@ var c01Prefixes = [][]string{
 	{"/", "/x/", "/x", "/x/%2"},
 	{"/api/v/", "/api/v"},
 	{"/a/", "/a/b/", "/a", "/a/%2"},
+	{"/api/v1/pets/", "/api/v1/pets", "/api//v1/pets/"},
+	{"/orgs/o1/members/", "/orgs/o1/members", "/pets/p1/owners/"},
 }
 
 var c01Methods = []string{"GET", "get", "POST", "Delete", "PUT"}
